@@ -10,9 +10,12 @@ import (
 	"fmt"
 	"io"
 	"os"
+	"path/filepath"
 	"runtime"
 	"sync"
 
+	"verif/internal/emu"
+	"verif/internal/prog"
 	"verif/internal/rig"
 )
 
@@ -286,3 +289,60 @@ func protocolStreams(c *rig.Ctx) {
 		c.Case(rig.Hash(uint64(i), r.U64(), 13))
 	})
 }
+
+// quietWithoutWriter: with no serial writer configured, bytes stored to SB go nowhere - not to
+// the process's standard output or standard error either - whether the emulator runs headless or
+// with its window and sound device (the fakes) attached.
+func quietWithoutWriter(c *rig.Ctx) {
+	c.Require("runs_without_writer_watched")
+	c.Part("quiet-without-writer", c.N(8, 48), func(i int64, r *rig.Rng) {
+		p := prog.Generate(r, prog.Options{Serial: true, CartType: 0})
+		if i%3 == 2 {
+			p = prog.DMAStream(r) // a serial byte after every transfer
+		}
+		frames := 2 + r.Intn(3)
+		s := emu.Scenario{ROM: p.ROM, Frames: frames, Video: i%2 == 0, Audio: i%4 == 1, NoSerialWriter: true}
+		if ok, _ := emu.Screen(s); !ok {
+			return
+		}
+		path := emu.TempROM(p.ROM, "c23q")
+		defer os.Remove(path)
+		capture := func() (*os.File, string) {
+			f, err := os.CreateTemp(filepath.Dir(path), "c23-std-*")
+			if err != nil {
+				panic(err)
+			}
+			return f, f.Name()
+		}
+		fo, no := capture()
+		fe, ne := capture()
+		defer os.Remove(no)
+		defer os.Remove(ne)
+		so, se := os.Stdout, os.Stderr
+		os.Stdout, os.Stderr = fo, fe
+		tr := emu.Run(s, path)
+		os.Stdout, os.Stderr = so, se
+		fo.Close()
+		fe.Close()
+		bo, _ := os.ReadFile(no)
+		be, _ := os.ReadFile(ne)
+		if len(bo) > 0 || len(be) > 0 {
+			c.Violate("output-without-a-writer", fmt.Sprintf("no serial writer configured (video=%v audio=%v, %d frames): %d bytes appeared on standard output and %d on standard error (first: % X)", s.Video, s.Audio, frames, len(bo), len(be), head(append(bo, be...), 16)), nil)
+			return
+		}
+		if tr.SerialLen != 0 {
+			c.Violate("output-without-a-writer", fmt.Sprintf("no serial writer configured, yet %d bytes reached the harness's buffer", tr.SerialLen), nil)
+			return
+		}
+		c.Count("runs_without_writer_watched", 1)
+		c.Case(rig.Hash(p.Hash, uint64(frames)))
+	})
+}
+
+func head(b []byte, n int) []byte {
+	if len(b) > n {
+		return b[:n]
+	}
+	return b
+}
+
